@@ -220,11 +220,15 @@ func trueImplies(h *ssa.Function, ri int, pred func(b *ssa.BasicBlock, extra []f
 				continue
 			}
 			n++
-			var extra []flow.Fact
-			if !isC {
-				extra = flow.Expand([]flow.Fact{{Cond: d.v, True: true}})
+			if isC {
+				// `return true` merged into the return block: judged where it was chosen
+				if !pred(d.b, nil) {
+					return false
+				}
+				continue
 			}
-			if !pred(d.b, extra) {
+			// a computed verdict: judged at the return itself, knowing that the value is true
+			if !pred(b, flow.Expand([]flow.Fact{{Cond: d.v, True: true}})) && !pred(d.b, flow.Expand([]flow.Fact{{Cond: d.v, True: true}})) {
 				return false
 			}
 		}
